@@ -446,7 +446,7 @@ def rr_repeatable_outcomes(ctx):
     """an outcome - a value or a documented refusal - is the same the first time, the second time, and in a process that never
     asked before (interned codons, memoised sequences, caches keyed on text)"""
     r, repo = ctx.r, ctx.repo
-    from ..genekernel import mk_sequence
+    from ..genekernel import mk_parent, mk_sequence
     from .c05 import mk_cds
 
     def questions(it):
@@ -462,6 +462,30 @@ def rr_repeatable_outcomes(ctx):
         q.append(("extract_sequence of an unstranded location", "location.location_impl:SingleInterval.extract_sequence",
                   lambda: it.call_func(repo.fn("location.location_impl:SingleInterval.extract_sequence"), [], {},
                                        it.apply(ClassTok("SingleInterval"), [2, 6, S["UNSTRANDED"]], {"parent": par}, None, 0), 0)))
+        # the same OBJECT asked again (the questions above build a new object every time): a refusal stays a refusal, and an object
+        # derived from a warmed-up operand answers like one derived from a cold operand
+        LOCQ = "location.location_impl"
+        st = it.enum("SequenceType")
+        par_other = chrom_parent(it, "CCCCCCCCCCCCCCC", alphabet="NT_EXTENDED_GAPPED")          # same id, another sequence
+        par_bare = mk_parent(it, id="chr1", sequence_type=st["CHROMOSOME"])                      # same id, no sequence
+        u1 = it.apply(ClassTok("SingleInterval"), [2, 6, S["UNSTRANDED"]], {"parent": par}, None, 0)
+        u2 = it.apply(ClassTok("CompoundInterval"), [[2, 8], [5, 11], S["UNSTRANDED"]], {"parent": par}, None, 0)
+        uf = mk_feature(it, [(2, 6)], S["UNSTRANDED"], parent_or_seq_chunk_parent=par) if True else None
+        ext = lambda o: it.call_func(repo.fn(f"{LOCQ}:{o.cls_name}.extract_sequence"), [], {}, o, 0).fields["sequence"]  # noqa: E731
+        q.append(("extract_sequence of one unstranded SingleInterval object", f"{LOCQ}:SingleInterval.extract_sequence", lambda: ext(u1)))
+        q.append(("extract_sequence of one unstranded CompoundInterval object", f"{LOCQ}:CompoundInterval.extract_sequence", lambda: ext(u2)))
+        q.append(("get_spliced_sequence of one unstranded feature object", "gene.interval:AbstractFeatureInterval.get_spliced_sequence",
+                  lambda: it.call_func(repo.fn("gene.interval:AbstractFeatureInterval.get_spliced_sequence"), [], {}, uf, 0).fields["sequence"]))
+        for cname, mk in (("SingleInterval", lambda sn: it.apply(ClassTok("SingleInterval"), [2, 8, S[sn]], {"parent": par}, None, 0)),
+                          ("CompoundInterval", lambda sn: it.apply(ClassTok("CompoundInterval"), [[1, 7], [4, 10], S[sn]], {"parent": par}, None, 0))):
+            for sn in ("PLUS", "MINUS"):
+                loc = mk(sn)
+                rp = repo.fn(f"{LOCQ}:{cname}.reset_parent")
+                q.append((f"extract_sequence ({cname} {sn}; warms the object up)", f"{LOCQ}:{cname}.extract_sequence", lambda loc=loc: ext(loc)))
+                q.append((f"reset_parent onto a parent with the same id and another sequence, then extract_sequence ({cname} {sn})", rp.qual,
+                          lambda loc=loc, rp=rp: ext(it.call_func(rp, [par_other], {}, loc, 0))))
+                q.append((f"reset_parent onto a parent with the same id and no sequence, then extract_sequence ({cname} {sn})", rp.qual,
+                          lambda loc=loc, rp=rp: ext(it.call_func(rp, [par_bare], {}, loc, 0))))
         return q
 
     def outcome(thunk):
